@@ -153,6 +153,31 @@ HBIN = os.path.join(HARNESS, 'target', 'release', 'jpharness')
 MBIN = os.path.join(LEAN, '.lake', 'build', 'bin', 'jpmodel')
 
 
+def _run_chunk(binary, mode, chunk, timeout):
+    """feed `chunk` to the executable; the time limit applies to each case (time since the previous answer line), not to the chunk"""
+    import threading
+    p = subprocess.Popen([binary, mode], stdin=subprocess.PIPE, stdout=subprocess.PIPE, stderr=subprocess.DEVNULL)
+    got = []; last = [time.time()]
+    def feed():
+        try:
+            p.stdin.write(('\n'.join(chunk) + '\n').encode('utf-8')); p.stdin.close()
+        except (BrokenPipeError, OSError): pass
+    def read():
+        for raw in p.stdout:
+            got.append(raw.decode('utf-8', 'replace').rstrip('\n')); last[0] = time.time()
+    tf = threading.Thread(target=feed, daemon=True); tr = threading.Thread(target=read, daemon=True)
+    tf.start(); tr.start()
+    rc = None
+    while True:
+        tr.join(0.2)
+        if not tr.is_alive(): break
+        if time.time() - last[0] > timeout:
+            p.kill(); rc = 'timeout'; tr.join(5); break
+    if rc is None: rc = p.wait()
+    else: p.wait()
+    return list(got), rc
+
+
 def run_lines(binary, mode, lines, timeout=40, isolate=True, max_timeouts=2):
     """run a line-protocol executable over `lines`; survive aborts and hangs: the case that kills the process is
     reported as {"abort": rc} / {"timeout": 1} and the run resumes after it.  After `max_timeouts` hangs the remaining
@@ -165,16 +190,8 @@ def run_lines(binary, mode, lines, timeout=40, isolate=True, max_timeouts=2):
         if timeouts >= max_timeouts:
             out.extend([json.dumps({'skipped': 1})] * (n - start)); break
         chunk = lines[start:]
-        try:
-            p = subprocess.run([binary, mode], input='\n'.join(chunk) + '\n', capture_output=True, text=True, timeout=timeout)
-            got = p.stdout.split('\n')
-            if got and got[-1] == '': got = got[:-1]
-            rc = p.returncode
-        except subprocess.TimeoutExpired as e:
-            so = e.stdout or b''
-            if isinstance(so, bytes): so = so.decode('utf-8', 'replace')
-            got = so.split('\n')[:-1]
-            rc = 'timeout'; timeouts += 1
+        got, rc = _run_chunk(binary, mode, chunk, timeout)
+        if rc == 'timeout': timeouts += 1
         if len(got) >= len(chunk):
             out.extend(got[:len(chunk)]); break
         out.extend(got)
@@ -248,6 +265,61 @@ def tag(v):
 
 
 # ---------------------------------------------------------------------------------------------- output
+# ------------------------------------------------------------------------------------------------ source obligations
+HIDDEN_STATE = re.compile(r'thread_local!|lazy_static!|\bstatic\s+mut\b|\bOnceCell\b|\bOnceLock\b|\bLazyLock\b|\bLazy\s*<|\bRefCell\b|\bCell\s*<|\bUnsafeCell\b|'
+                          r'\bMutex\b|\bRwLock\b|\bAtomic[A-Z][A-Za-z0-9]*\b|\bunsafe\b|std::env\b|std::fs\b|std::time\b|SystemTime|Instant::|\brand::')
+
+
+def rust_code_only(src):
+    """Rust source without comments, string/char literals and the trailing `#[cfg(test)] mod …` block"""
+    out = []; i = 0; n = len(src)
+    while i < n:
+        c = src[i]
+        if src.startswith('//', i):
+            j = src.find('\n', i); i = n if j < 0 else j
+        elif src.startswith('/*', i):
+            depth = 1; i += 2
+            while i < n and depth:
+                if src.startswith('/*', i): depth += 1; i += 2
+                elif src.startswith('*/', i): depth -= 1; i += 2
+                else: i += 1
+        elif c == '"':
+            i += 1
+            while i < n and src[i] != '"': i += 2 if src[i] == '\\' else 1
+            i += 1; out.append('""')
+        elif c == 'r' and re.match(r'r#*"', src[i:]):
+            m = re.match(r'r(#*)"', src[i:]); end = '"' + m.group(1)
+            j = src.find(end, i + len(m.group(0))); i = n if j < 0 else j + len(end); out.append('""')
+        elif c == "'" and re.match(r"'(\\.[^']*|[^'\\])'", src[i:]):
+            i += len(re.match(r"'(\\.[^']*|[^'\\])'", src[i:]).group(0)); out.append("' '")
+        else:
+            out.append(c); i += 1
+    code = ''.join(out)
+    m = re.search(r'#\[cfg\(test\)\]\s*(pub\s+)?mod\s+\w+\s*\{', code)
+    return code[:m.start()] if m else code
+
+
+def source_obligations(ctx):
+    """Facts about /repo's source that the model takes for granted and that are checked on the text of the code at every run.
+    no-hidden-state (C12): the Lean model makes parsing and evaluation functions of their arguments; safe Rust code without mutable statics, thread-locals,
+    interior mutability (Cell, RefCell, Mutex, RwLock, atomics, once-cells, lazies), `unsafe`, clocks, environment or file access cannot be anything else
+    (an immutable `static`/`const` table holds no state and is not flagged). A hit does not show a violation, it shows that purity is no longer established: the check then searches for a history-dependent result and, failing that,
+    reports `no-failing-input-found`."""
+    broken = []
+    if ctx.prop == 'C12':
+        hits = []
+        for dp, _, fs in os.walk(os.path.join(REPO, 'src')):
+            for f in sorted(fs):
+                if not f.endswith('.rs'): continue
+                path = os.path.join(dp, f)
+                code = rust_code_only(open(path, encoding='utf-8', errors='replace').read())
+                for ln, line in enumerate(code.split('\n'), 1):
+                    m = HIDDEN_STATE.search(line)
+                    if m: hits.append({'file': os.path.relpath(path, REPO), 'line_in_code_only_text': ln, 'construct': m.group(0), 'text': line.strip()[:160]})
+        if hits: broken.append({'obligation': 'no-hidden-state', 'model_assumption': 'parse and eval are functions of (query, document) only (theorems C12.history_independent, C12.repeatable)', 'hits': hits[:10]})
+    return broken
+
+
 def write_replay(ctx, name, obj):
     p = os.path.join(ROOT, 'evidence', 'replays', f'{ctx.prop}-{name}.json')
     obj = dict(obj); obj.setdefault('property', ctx.prop)
